@@ -423,7 +423,7 @@ retry_after_fb:
 
         link_or_value* lv = bn->get_lv_at(index);
         value* vp = lv->get_value();
-        // base_node* next_layer = lv->get_next_layer();
+        base_node* next_layer = lv->get_next_layer();
 
         /*
          * This verification may seem verbose, but it can also be considered
@@ -477,12 +477,12 @@ retry_after_fb:
         // in range
         YAKUSHIMA_VERIF_POINT(5);
         if (kl > sizeof(key_slice_type)) {
-            base_node* child = lv->get_next_layer();
+            // the link was read before the version check above, so it is the link of this entry
+            base_node* child = next_layer;
             if (child == nullptr) {
                 if (early_abort) { return status::WARN_CONCURRENT_OPERATIONS; }
-//                goto retry_fetch_lv; // NOLINT
+                goto retry_from_root; // NOLINT
             }
-            // TODO: implement check and retry
 
             if (bnv_cb(bn->get_version_ptr(), v_at_fb)) {
                 return status::WARN_ABORTED_BY_USER;
@@ -490,6 +490,11 @@ retry_after_fb:
             key_tuple child_kt = right_to_left ? key_tuple::max() : key_tuple::min();
             auto child_border_node_and_v =
                 find_border(child, child_kt.get_key_slice(), child_kt.get_key_length(), check_status);
+            if (check_status == status::WARN_RETRY_FROM_ROOT_OF_ALL) {
+                // the next layer was emptied or re-rooted after its link was read
+                if (early_abort) { return status::WARN_CONCURRENT_OPERATIONS; }
+                goto retry_from_root; // NOLINT
+            }
             border_node* target_border = std::get<0>(child_border_node_and_v);
             // save stack context
             ctx->stack_top().bn = bn;
